@@ -214,6 +214,9 @@ type nodeProxy struct {
 	id      uint64
 	results map[uint64]string
 	stop    chan struct{}
+	// onApplied runs after an entry has been applied and reported; the apply
+	// path holds no state machine lock at that point (per-entry path only)
+	onApplied func(index uint64)
 }
 
 func (n *nodeProxy) StepReady()                       {}
@@ -232,6 +235,9 @@ func (n *nodeProxy) ApplyUpdate(e pb.Entry, r sm.Result, rejected bool, ignored 
 		s = old + " AGAIN " + s
 	}
 	n.results[e.Index] = s
+	if n.onApplied != nil {
+		n.onApplied(e.Index)
+	}
 }
 func (n *nodeProxy) ApplyConfigChange(cc pb.ConfigChange, key uint64, rejected bool) error {
 	s := "cc 1"
@@ -242,6 +248,9 @@ func (n *nodeProxy) ApplyConfigChange(cc pb.ConfigChange, key uint64, rejected b
 		s = old + " AGAIN " + s
 	}
 	n.results[key] = s
+	if n.onApplied != nil {
+		n.onApplied(key)
+	}
 	return nil
 }
 func (n *nodeProxy) ReplicaID() uint64           { return n.id }
@@ -540,3 +549,34 @@ func (r *replica) aux() string {
 }
 
 var errSkip = errors.New("skip")
+
+// streamSink stands for the snapshot connection to a follower: the chunks the
+// real chunk writer produces go to the follower's real chunk receiver.
+type streamSink struct {
+	to     uint64
+	chunks *hk.Chunk
+}
+
+func (s *streamSink) Receive(c pb.Chunk) (bool, bool) {
+	if c.IsPoisonChunk() {
+		return true, false
+	}
+	return s.chunks.Add(c), false
+}
+func (s *streamSink) Close() error        { return nil }
+func (s *streamSink) ShardID() uint64     { return 1 }
+func (s *streamSink) ToReplicaID() uint64 { return s.to }
+
+// batched tells whether StateMachine.handle sends these entries through
+// handleBatch (one critical section, reports made under the lock)
+func batched(kind string, ents []pb.Entry) bool {
+	if kind == "reg" {
+		return false
+	}
+	for i := range ents {
+		if !ents[i].IsUpdateEntry() || !ents[i].IsNoOPSession() {
+			return false
+		}
+	}
+	return true
+}
